@@ -115,6 +115,65 @@ func main() {
 	fmt.Println("corpus files:", len(srcs))
 	rng := rand.New(rand.NewSource(1))
 	switch cmd {
+	case "obsrt":
+		N := 2000
+		stats := map[string]int{}
+		for seed := int64(0); seed < int64(N); seed++ {
+			src := []byte(GenProgram(seed))
+			r0, e0 := ObserveSrc(src, "raw")
+			if e0 != nil || strings.Contains(r0, "_|_") {
+				stats["skipped-error"]++
+				continue
+			}
+			f0, _ := ObserveSrc(src, "final")
+			d0, _ := ObserveSrc(src, "data")
+			v := newCtx().CompileBytes(src)
+			type prof struct {
+				name string
+				opts []cue.Option
+				mode string
+				want string
+			}
+			profs := []prof{
+				{"all", []cue.Option{cue.All()}, "raw", r0},
+				{"default", nil, "raw", r0},
+				{"final", []cue.Option{cue.Final()}, "final", f0},
+				{"evalcmd", []cue.Option{cue.Final(), cue.Definitions(true), cue.Optional(true), cue.Attributes(true)}, "final", f0},
+			}
+			if v.Validate(cue.Concrete(true)) == nil {
+				profs = append(profs, prof{"concrete", []cue.Option{cue.Concrete(true)}, "data", d0})
+			}
+			for _, p := range profs {
+				b, err := format.Node(v.Syntax(p.opts...))
+				if err != nil {
+					stats[p.name+":fmterr"]++
+					continue
+				}
+				got, err := ObserveSrc(b, p.mode)
+				if err != nil {
+					stats[p.name+":recompile-err"]++
+					if stats[p.name+":recompile-err"] <= 3 {
+						fmt.Printf("RECOMPILE-ERR %s seed %d: %v\n--- src\n%s--- out\n%s\n", p.name, seed, err, src, b)
+					}
+					continue
+				}
+				if got != p.want {
+					stats[p.name+":diff"]++
+					if stats[p.name+":diff"] <= 3 {
+						a, bb := p.want, got
+						i := 0
+						for i < len(a) && i < len(bb) && a[i] == bb[i] {
+							i++
+						}
+						lo := max(0, i-80)
+						fmt.Printf("OBS-RT-DIFF %s seed %d\n--- src\n%s--- out\n%s\n  A: ...%.200s\n  B: ...%.200s\n", p.name, seed, src, b, a[lo:], bb[lo:])
+					}
+				} else {
+					stats[p.name+":ok"]++
+				}
+			}
+		}
+		fmt.Println(stats)
 	case "obsperm":
 		N := 2000
 		diffs, errs := 0, 0
